@@ -1603,7 +1603,8 @@ def _t_eval(target, _t, scope):
             # handle the rest of the t_path in recursive calls
             cur = []
             todo = TType()
-            todo.__ops__ = (root,) + t_path[i+2:]
+            # the remaining steps start from each child, also when the expression is rooted at S
+            todo.__ops__ = (T if root is S else root,) + t_path[i+2:]
             for child in nxt:
                 try:
                     cur.append(_t_eval(child, todo, scope))
